@@ -130,7 +130,7 @@ class Ctx:
         for d in ("SRC", "CBLAS"):
             for f in sorted(glob.glob(os.path.join(REPO, d, "*.h"))):
                 h.update(os.path.basename(f).encode()); h.update(read(f))
-        for f in sorted(glob.glob(os.path.join(VERIF, "harness", "*.h"))):
+        for f in sorted(glob.glob(os.path.join(VERIF, "harness", "*.h")) + glob.glob(os.path.join(VERIF, "harness", "*.inc"))):
             h.update(os.path.basename(f).encode()); h.update(read(f))
         return h.hexdigest()
 
